@@ -426,11 +426,9 @@ where
     // Parse the exponent
     parser.checked_begin_exponent().ok()?;
 
-    parser
-        .parse_fmt(exponent.as_display())
-        .expect("failed to parse exponent");
+    parser.parse_fmt(exponent.as_display()).ok()?;
 
-    let parsed = parser.end().expect("failed to finish parsing");
+    let parsed = parser.end().ok()?;
 
     // Convert the parsed value into a float
     str::from_utf8(parsed.finite_buf.get_ascii())
